@@ -19,6 +19,29 @@ NOT_BUILT = ("check not built yet in this round (planned in DESIGN.md section 9)
 NOT_APPLICABLE = {}
 
 CLAIMED = {
+    "C13": {
+        "text": "spec/Render.tla lists 27 echo sites with their context (element text, double-quoted attribute, HTTP header, "
+                "Gopher+ line) and the transformation applied as coded; MC_C13 enumerates every data string up to length 3 "
+                "(quick) / 4 (thorough) over < > & \" ' CR LF a at every site and checks Inert, TwinInert, ContentPrefixed, "
+                "NoHeaderSite exhaustively. Every model case is planted at its real source (selector, query, URL: selector, "
+                "file/dir name, HTML title, mail Subject, sidecars, gophermap and .Links fields, text lines), the page is "
+                "fetched from the real server and abstracted by independent tokenizers (html.parser, expat, Gopher+ line "
+                "classifier); TraceC13 judges BlocksUnforgeable, SkeletonStable (against the inert twin), "
+                "HeadersServerChosen, EchoesEscaped.",
+        "note": "Trusted: TLC; tokenizers and sentinels in harness/c13.py; alphabet excludes $ % TAB NUL and non-ASCII; default "
+                "handler list only. Known findings: names containing LF reach the Gopher+ +INFO line raw.",
+    },
+    "C15": {
+        "text": "spec/GopherPlus.tla transcribes the sidecar pipeline and block construction; MC_C15 enumerates item kind x "
+                "sidecar subset / content / size x form (! $ +) exhaustively within bounds and checks the Appendix E.3 clauses "
+                "on the coded pipeline (deviations stated exactly); constants (eaexts, MIME types, extstrip) are imported from "
+                "the tree at check time. Every model state is replayed on the real server (files, directories, ZIP members, "
+                "mbox messages) and TraceC15 judges the lexed answers (BlockStructure, ItemsListed, HasAdmin, ViewsTruthful, "
+                "SidecarExact, InfoIsMenuLine against the independently fetched plain menu, LenOrMarker).",
+        "note": "Trusted: TLC; the strict Gopher+ block lexer and gamma in harness/c15.py; ASCII contents; no .gz items; "
+                "Maildir not driven. Three known findings (last blank sidecar line lost, ! ignores listing-assigned names, "
+                "20 KB sidecar cap).",
+    },
     "C14": {
         "text": "spec/MC_C14.tla (two workers stepping at environment-operation granularity over the shared cache file and "
                 "a check-then-set lazy table, accept loop, sniff inside the worker, fork/zombie/reap) is model-checked "
